@@ -95,8 +95,8 @@ class LinearFilter:
         axis : int, optional
            axis containing coordinates. Default -1
         """
-        # copy X
-        _X = np.array(X)
+        # copy X (as floats: the coordinates are divided in place below)
+        _X = np.array(X, dtype=np.float64)
         # roll coordinate axis to front
         _X = np.rollaxis(_X, axis)
         # convert coordinates to FWHM units
